@@ -359,7 +359,11 @@ def classify_call(P, fn, s):
                     return '16 mem*(array, ., n) with n bounded by the array size, text terminated afterwards', 'n<=%d size=%d' % (ub, room)
                 return None, '%s(%s, ., %s) is bounded but nothing terminates the copied text: stale bytes of a longer earlier value remain' % (name, sx(d), sx(a[2]))
         # idiom 4: memcpy(dst, src_array, p - src_array), p = strchr(src_array, c) non-null here
-        a2x = fn.expand_local(a[2], s) if isinstance(a[2], dict) else a[2]
+        a2x = a[2]
+        if is_var(a2x):
+            sd_ = fn.single_def(a2x['name'])
+            if sd_ and isinstance(sd_[1], dict):
+                a2x = sd_[1]          # one level: `len = p - src; memcpy(dst, src, len)`
         if ex is not None and isinstance(a2x, dict) and a2x.get('k') == 'bin' and a2x['op'] == '-' and is_var(a2x['l']):
             p = a2x['l']['name']
             src = a2x['r']
